@@ -326,7 +326,9 @@ class CodecMonitor:
                 {"type": tn, "value": auxgen.describe(v, t),
                  "bytes": foreign.hex()[:600],
                  "got": got if isinstance(got, str) else to_json(got)})
-        if self.java_out is not None and java_ok(t):
+        if self.java_out is not None and java_ok(t) and \
+                self.java_seq < self.ctx.params.get("java_max_per_worker",
+                                                    10 ** 9):
             self.java_seq += 1
             self.java_out.write("%s:%d:%d\t%s\t%s\t%s\n" % (
                 case.stream, case.index, self.java_seq, tn, raw.hex(),
